@@ -8,5 +8,12 @@ From Coq Require Extraction.
 From Coq Require Import ExtrOcamlBasic ExtrOcamlZBigInt.
 From Dec Require Import L3.Store.
 
+(* Two further constants, for speed on operands of thousands of words (Coq's
+   Z.log2 and Z.pow recurse on the binary representation): *)
+Extract Constant Z.log2 =>
+  "(fun x -> if Big_int_Z.sign_big_int x <= 0 then Big_int_Z.zero_big_int else Big_int_Z.big_int_of_int (Stdlib.pred (Z.numbits x)))".
+Extract Constant Z.pow =>
+  "(fun x y -> if Big_int_Z.sign_big_int y < 0 then Big_int_Z.zero_big_int else Big_int_Z.power_big_int_positive_big_int x y)".
+
 Extraction Blacklist List String Int Z Big.
 Extraction "model.ml" run step get set wf_b strip_low.
